@@ -672,6 +672,8 @@ where
         let mut safe = self.inner.safe.write().await;
         let blob =
             Blob::open_new(next, self.inner.iodriver.clone(), self.inner.config.blob()).await?;
+        #[cfg(pearl_verif)]
+        crate::verif::event("active_init", &[("blob", blob.id() as u64)], None);
         safe.active_blob = Some(Box::new(ASRwLock::new(blob)));
         Ok(())
     }
@@ -716,6 +718,8 @@ where
         }
 
         let mut safe = self.inner.safe.write().await;
+        #[cfg(pearl_verif)]
+        crate::verif::event("active_init", &[("blob", active_blob.as_ref().map_or(u64::MAX, |b| b.id() as u64))], None);
         safe.active_blob = active_blob.map(|ab| Box::new(ASRwLock::new(ab)));
         *safe.blobs.write().await =
             HierarchicalFilters::from_vec(self.inner.config.bloom_filter_group_size(), 1, blobs).await;
